@@ -1,13 +1,14 @@
 #!/usr/bin/env python3
 """Maintenance helper: run the stored mutants of one property whose name contains a substring (overlay, nothing written).
-usage: run_mutants.py <PROP> <substring>"""
+usage: run_mutants.py <PROP> <substring> [mutants|variants]"""
 import json, sys
 sys.path.insert(0, "/verif")
 from cobralint import selftest
 prop, pat = sys.argv[1], sys.argv[2]
 SRC = "/repo/src"
 base, err = selftest.findings_for(prop, SRC, None)
-for c in json.load(open(f"/verif/selftest/mutants/{prop}.json")):
+KIND = sys.argv[3] if len(sys.argv) > 3 else "mutants"
+for c in json.load(open(f"/verif/selftest/{KIND}/{prop}.json")):
     if pat not in c["name"]:
         continue
     overlay = {}
